@@ -2,6 +2,7 @@
 From Coq Require Import Strings.String Strings.Byte.
 From Coq Require Import List NArith Permutation.
 From Goit Require Import Bytes Config ConfigFacts.
+From Goit Require Import World Repo BranchFacts ConfigCmdFacts.
 Import ListNotations.
 
 (* T1: whatever order Go's map iteration writes sections and keys in, the next
@@ -39,8 +40,47 @@ Proof. exact user_set_iff. Qed.
 Example C20_nonvacuous : wf_cfg ex_cfg.
 Proof. exact ex_cfg_wf. Qed.
 
+
+(* ---------- Part 2: the commands ---------- *)
+(* `config sec.key value` (local): exactly one write of .goit/config; the next
+   process loads a config in which sec.key = value, every other key and section
+   is unchanged, nothing else in the world changes (the global file included) *)
+Theorem C20_config_local_spec : forall e w l key value sec k,
+  w_inited w = true -> rest_loads w -> cfg_of (w_gcfg w) <> None -> w_lcfg w = CfgFile (Some l) -> wf_cfg l ->
+  split_all x2e key = [sec; k] -> ok_sec sec -> ok_key k -> ok_val value ->
+  let l' := cfg_add l sec k value in
+  step (ACmd e (CConfig false [key; value])) w
+    = (set_lcfg w (CfgFile (Some l')), OOk [], [ESetLcfg (CfgFile (Some l'))]) /\
+  cfg_of (w_lcfg (set_lcfg w (CfgFile (Some l')))) = Some l' /\ cfg_updated l l' sec k value /\
+  w_gcfg (set_lcfg w (CfgFile (Some l'))) = w_gcfg w /\
+  config_post w (CfgFile (Some l')) (w_gcfg w) (set_lcfg w (CfgFile (Some l'))).
+Proof. exact config_local_spec. Qed.
+
+(* whatever any history does, a config file that loads is well formed (distinct
+   sections and keys, no newline/TAB, trimmed) *)
+Theorem C20_configs_well_formed_on_every_history : forall h, WfCfg (run h w_empty).
+Proof. exact WfCfg_run. Qed.
+
+(* a successful commit records the effective identity (local over global) in
+   both the author and the committer line *)
+Theorem C20_commit_records_effective_identity : forall e w x msg w' out tr,
+  w_inited w = true -> ctx_of w = Some x -> step (ACmd e (CCommit msg)) w = (w', OOk out, tr) ->
+  user_set (x_l x) (x_g x) = true /\
+  exists root subs from,
+    Tree.write_tree_top (idx_of w) = Some (root, subs) /\
+    let sg := Commit.sign_string (user_name (x_l x) (x_g x)) (user_email (x_l x) (x_g x)) (e_time e) (e_off e) in
+    let data := Commit.commit_text (Obj.obj_id Obj.KTree root) (commit_parent w) sg sg msg in
+    let cid := Obj.obj_id Obj.KCommit data in
+    tr = commit_trace e x msg w root subs from /\ In (EPutObj cid (Obj.payload Obj.KCommit data)) tr /\
+    Commit.parse_commit data <> None /\ w_head w' = w_head w /\
+    am_get (w_refs w') (w_head w') = Some cid /\ Obj.st_lookup (w_objs w') cid = Some (Obj.payload Obj.KCommit data).
+Proof. exact commit_records_identity. Qed.
+
 Print Assumptions C20_roundtrip_any_order.
 Print Assumptions C20_set_then_load.
 Print Assumptions C20_local_first.
 Print Assumptions C20_global_fallback.
 Print Assumptions C20_user_set_iff.
+Print Assumptions C20_config_local_spec.
+Print Assumptions C20_configs_well_formed_on_every_history.
+Print Assumptions C20_commit_records_effective_identity.
